@@ -33,19 +33,21 @@ Proof. exact exec_skipped_inv. Qed.
 (* Cram documents run as ONE script.  The document is reported skipped exactly when a divider that was printed carries the
    skip code (or the script itself ended in it) -- also when a later test case ends the script early with another code, so
    that dividers are missing: the skip is found first and is never turned into an execution error *)
-Theorem C15_script_skip_detected : forall skip rs early j r, script_first_stop (produced rs early) = None ->
-  nth_error (produced rs early) j = Some r -> status r = Code skip ->
+Theorem C15_script_skip_detected : forall skip rs early j r,
+  nth_error (before_stop (produced rs early)) j = Some r -> status r = Code skip ->
   exists k, k <= j /\ exec_script2 skip rs early = ExSkipped k.
 Proof. exact script_skip_detected. Qed.
 Theorem C15_script_skip_has_cause : forall skip rs early k, exec_script2 skip rs early = ExSkipped k ->
-  (exists r, nth_error (produced rs early) k = Some r /\ status r = Code skip)
+  (exists r, nth_error (before_stop (produced rs early)) k = Some r /\ status r = Code skip)
   \/ (k = 0 /\ exists r, script_first_stop (produced rs early) = Some r /\ status r = ESkipped).
 Proof. exact script_skip_has_cause. Qed.
 Example C15_script_instance :
   let r c := {| status := Code c; out_ok := true |} in
   exec_script2 80%Z [r 0%Z; r 80%Z; r 3%Z; r 0%Z] (Some 2) = ExSkipped 1      (* (exit 80) in the second test case, `exit 3` in the third *)
   /\ exec_script2 80%Z [r 0%Z; r 1%Z; r 3%Z; r 0%Z] (Some 2) = ExFailed 0    (* no skip: the missing dividers are an execution error *)
-  /\ exec_script2 80%Z [r 0%Z; r 1%Z; r 3%Z; r 80%Z] (Some 2) = ExFailed 0.  (* a skip that was never reached does not count *)
+  /\ exec_script2 80%Z [r 0%Z; r 1%Z; r 3%Z; r 80%Z] (Some 2) = ExFailed 0   (* a skip that was never reached does not count *)
+  /\ exec_script2 80%Z [r 0%Z; r 80%Z; {| status := TimedOut; out_ok := true |}; r 0%Z] None = ExSkipped 1   (* a skip, then a timeout: skipped *)
+  /\ exec_script2 80%Z [r 0%Z; {| status := Unknown; out_ok := true |}; r 80%Z] None = ExFailed 0.          (* the shell died before the skip *)
 Proof. repeat split; vm_compute; reflexivity. Qed.
 
 Theorem C15_default_code : default_skip_document_code = 80%Z /\ tc_empty_get_skip_code = 80%Z.
